@@ -3,6 +3,8 @@
 // extracted Coq models, together with the direct monitors of the properties.
 mod common;
 mod dump;
+mod geom;
+mod geomgen;
 mod opt;
 mod optgen;
 mod parse;
@@ -26,6 +28,59 @@ fn main() {
         }
         "parse-run" => {
             parse::run(arg(&args, "--cases").expect("--cases"), arg(&args, "--out").expect("--out"));
+        }
+        "geom-gen" => {
+            let focus = arg(&args, "--focus").unwrap_or("C15");
+            let seed: u64 = arg(&args, "--seed").unwrap_or("0").parse().unwrap();
+            let count: u64 = arg(&args, "--count").unwrap_or("10").parse().unwrap();
+            for l in geomgen::gen(focus, seed, count) {
+                println!("{}", l);
+            }
+        }
+        "geom-run" => {
+            let specs = std::fs::File::open(arg(&args, "--specs").expect("--specs")).expect("specs file");
+            let lines: Vec<String> = std::io::BufReader::new(specs).lines().map(|l| l.unwrap()).filter(|l| l.starts_with("geom ")).collect();
+            let cases_path = arg(&args, "--cases").expect("--cases").to_string();
+            let report_path = arg(&args, "--report").expect("--report").to_string();
+            let threads: usize = 16;
+            let mut chunks: Vec<Vec<String>> = vec![vec![]; threads];
+            for (i, l) in lines.iter().enumerate() {
+                chunks[i % threads].push(l.clone());
+            }
+            let handles: Vec<_> = chunks
+                .into_iter()
+                .enumerate()
+                .map(|(ti, chunk)| {
+                    let cp = format!("{}.{}", cases_path, ti);
+                    std::thread::spawn(move || {
+                        let mut cf = std::io::BufWriter::new(std::fs::File::create(&cp).unwrap());
+                        let mut rep = vec![];
+                        for l in chunk {
+                            let spec = Spec::parse(&l);
+                            let mut buf: Vec<u8> = vec![];
+                            let r = std::panic::catch_unwind(std::panic::AssertUnwindSafe(|| geom::run_case(&spec, &mut buf)));
+                            match r {
+                                Ok(o) => {
+                                    cf.write_all(&buf).unwrap();
+                                    rep.push(format!("M {} | {}", l, o.meta));
+                                    for f in o.findings {
+                                        rep.push(format!("FINDING {} | {} | {}", f.property, l, f.what));
+                                    }
+                                }
+                                Err(_) => rep.push(format!("M {} | built=false panic=true", l)),
+                            }
+                        }
+                        cf.flush().unwrap();
+                        rep
+                    })
+                })
+                .collect();
+            let mut rf = std::io::BufWriter::new(std::fs::File::create(&report_path).unwrap());
+            for h in handles {
+                for l in h.join().unwrap() {
+                    writeln!(rf, "{}", l).unwrap();
+                }
+            }
         }
         "opt-gen" => {
             let focus = arg(&args, "--focus").unwrap_or("C06");
